@@ -970,7 +970,9 @@ def _gen_package(rnd, n_parts):
     for u in edges:
         for _ in range(rnd.randint(0, 3) if u != "/" else rnd.randint(1, 3)):
             if rnd.random() < 0.15:
-                edges[u].append(("http://example.com/%d" % rnd.randint(0, 9), True))
+                edges[u].append((rnd.choice(["http://example.com/%d" % rnd.randint(0, 9), "file:///C:\\Users\\me\\My Documents\\Book %d.xlsx" % rnd.randint(0, 9),
+                                             "http://example.com/a b?q=\u00e9&amp;x=%20{1}|^`", "mailto:a@b.c?subject=x y", "../outside/file name.txt", "#frag only",
+                                             "http://example.com/%7Euser/%C3%A9"]), True))
             else:
                 edges[u].append((rnd.choice(names), False))
 
@@ -1225,3 +1227,55 @@ def _rels_xml(c):
                                         z3.And(0 <= P.pos(j), P.pos(j) < log["cnt"], log["RID"][P.pos(j)] == RID(j), log["TYPE"][P.pos(j)] == TYPE_OF(RID(j)),
                                                log["REF"][P.pos(j)] == REF_OF(RID(j)), log["EXT"][P.pos(j)] == EXT_OF(RID(j))))))
     c.ensures("post.returns_the_bytes_of_that_element", out.value is the_bytes)
+
+
+# ---------------------------------------------------------------------------------------------------------
+# CT_Relationships.add_rel / CT_Relationship.new: what _Relationships.xml hands over is what the element holds
+
+
+def _replay_add_rel(model, rec):
+    from pptx.opc.oxml import CT_Relationships
+
+    rels = CT_Relationships.new()
+    cases = [("rId1", "http://t/1", "../slides/slide1.xml", False), ("rId2", "http://t/2", "file:///C:\\Users\\me\\My Documents\\Book 1.xlsx", True),
+             ("rId3", "http://t/3", "http://example.com/a b?q=\u00e9&x=%20{1}|^`", True), ("x", "http://t/4", "mailto:a@b.c?subject=x y", True),
+             ("rId5", "http://t/5", "/ppt/media/image 1.png", False)]
+    for rid, rt, tgt, ext in cases:
+        e = rels.add_rel(rid, rt, tgt, ext)
+        got = (e.get("Id"), e.get("Type"), e.get("Target"), e.get("TargetMode"))
+        want = (rid, rt, tgt, "External" if ext else None)
+        if got != want:
+            return {"confirmed": True, "witness_class": "add-rel", "detail": "add_rel%r wrote (Id, Type, Target, TargetMode) = %r" % ((rid, rt, tgt, ext), got)}
+    if [e.get("Id") for e in rels] != [c[0] for c in cases]:
+        return {"confirmed": True, "witness_class": "add-rel", "detail": "children %s" % [e.get("Id") for e in rels]}
+    return {"confirmed": False, "detail": "five relationships with spaces, backslashes, non-ASCII and reserved characters stored verbatim"}
+
+
+@contract("C01", "C01.opc.oxml.CT_Relationships.add_rel", replay=_replay_add_rel)
+def _add_rel(c):
+    """for any id, type and target strings: the new element carries exactly those strings (no re-encoding), TargetMode is
+    'External' iff is_external (absent otherwise), and it is the element inserted into the collection and returned."""
+    from pptx.opc.oxml import CT_Relationship, CT_Relationships
+
+    from .c09 import AttrElem
+
+    made, inserted = [], []
+    c.summaries["pptx.opc.oxml:parse_xml"] = lambda it, a, k: (made.append(AttrElem(CT_Relationship, {})), made[-1])[1]
+    c.summaries["pptx.oxml:parse_xml"] = c.summaries["pptx.opc.oxml:parse_xml"]
+    s_ = lambda nm: SStr([Atom(nm, zs=c.input(nm, z3.String(nm)))])
+    rid, rt, tgt = s_("rId"), s_("reltype"), s_("target")
+    ext = c.branch(c.bool("is_external"))
+    rels = SObj(CT_Relationships, "rels", _insert_relationship=GhostFn(lambda it, a, k: (inserted.append(a[0]), a[0])[1], "_insert_relationship"))
+    out = c.run(CT_Relationships.add_rel, rels, rid, rt, tgt, ext)
+    if out.raised:
+        c.fails("never_raises", "add_rel raised %s" % out.exc)
+        return
+    ok = len(made) == 1 and len(inserted) == 1 and inserted[0] is made[0] and out.value is made[0]
+    c.ensures("post.one_element_made_inserted_and_returned", ok)
+    if not ok:
+        return
+    at = made[0].attrs
+    same = lambda v, a: isinstance(v, SStr) and len(v.parts) == 1 and v.parts[0] is a.parts[0]
+    c.ensures("post.id_type_target_verbatim", same(at.get("Id"), rid) and same(at.get("Type"), rt) and same(at.get("Target"), tgt), got=repr({k: repr(v) for k, v in at.items()}))
+    c.ensures("post.target_mode", (at.get("TargetMode") == "External") if ext else ("TargetMode" not in at))
+    c.ensures("post.no_other_attribute", set(at) <= {"Id", "Type", "Target", "TargetMode"})
